@@ -22,7 +22,7 @@
    * C14_text_ratio uses the kernel's primitive floats (evaluated by vm_compute only; no
      float axiom is used). *)
 From Coq Require Import NArith ZArith List Bool.
-From DvcData Require Import Base.Val Base.PyBase Base.PyStream Gen.Hash Model.HashStream Proofs.HashStreamProofs Proofs.HashStreamProofs2 Proofs.HashStreamProofs3.
+From DvcData Require Import Base.Val Base.PyBase Base.PyStream Gen.Hash Model.HashStream Proofs.HashStreamProofs Proofs.HashStreamProofs2 Proofs.HashStreamProofs3 Proofs.HashStreamMD5.
 Import ListNotations.
 Open Scope N_scope.
 
